@@ -38,6 +38,7 @@ for root, _, files in os.walk(src):
             if cs:
                 cons[q] = cs
         ref["__constructs__"] = cons
+        ref["__ifexps__"] = {q: sg for q, sg in ((q, normalize.ifexp_signatures(fn)) for q, fn in alpha.functions_with_qualnames(tree)) if sg}
         from bacverif import dispatch
         ref["__globals__"] = dispatch.global_names(tree)
         out[rel] = ref
